@@ -405,6 +405,14 @@ def files_cases(tier):
                       "edit": [["pixel", "npy"], ["image", "fits"]]})
         cases.append({"part": "files", "save": [["pixel", "npy"], ["image", "npy"]], "mode": mode, "repeat": 2,
                       "edit": [["pixel", "fits"], ["image", "npy"]]})
+    # the command-line entry point pyxel.run(<YAML file>): its returned table (also written as output_filenames.csv) is the
+    # report of the files; every row must name an existing file of the run it is labelled with
+    for mode in ("exposure1", "exposure2", "obs_seq", "obs_dask"):
+        for sl in ([["pixel", "npy"]], [["pixel", "npy"], ["image", "fits"], ["image", "npy"]],
+                   [["signal", "fits"], ["photon", "npy"]]):
+            cases.append({"part": "files", "cli": True, "save": sl, "mode": mode})
+            if mode.startswith("obs"):
+                cases.append({"part": "files", "cli": True, "save": sl, "mode": mode, "grid": [2, 3]})
     # the writer methods called directly, n times into one folder with automatic numbering (n > 10: two-digit numbers)
     for fmt in ("npy", "fits", "txt", "csv"):
         for n in (3, 12):
@@ -562,6 +570,133 @@ def run_default_list_case(case):
             "outcome": {"unsupported": False, "files_read_back": 0}, "sets": {"unsupported": []}}
 
 
+_YAML_DETECTOR = """
+ccd_detector:
+  geometry: {row: 2, col: 3, total_thickness: 10.0, pixel_vert_size: 2.0, pixel_horz_size: 0.5}
+  environment: {temperature: 100.0}
+  characteristics: {quantum_efficiency: 0.5, charge_to_volt_conversion: 1.0e-3, pre_amplification: 4.0,
+                    full_well_capacity: 1000, adc_bit_resolution: 16, adc_voltage_range: [0.0, 8.0]}
+"""
+
+
+def run_cli_case(case):
+    """pyxel.run(<YAML file>) - what `pyxel run file.yaml` executes: the returned table of output files (one row per
+    requested bucket x format x run, labelled with the run's parameter values) is the report the property speaks of."""
+    import pyxel
+
+    seed = int(os.environ.get("VERIF_SEED", "0") or 0) % 5
+    sl, mode = case["save"], case["mode"]
+    viol = []
+    tmp = tempfile.mkdtemp(prefix="vp_c19c_")
+    parent = os.path.join(tmp, "parent")
+    os.mkdir(parent)
+    clock = FakeClock().install()
+    nfiles = 0
+
+    def bad(code, what, **kw):
+        key = {"part": "files", "mode": mode.rstrip("12"), "code": code, "entry": "pyxel.run"}
+        key.update(kw)
+        viol.append((key, f"[pyxel.run of a YAML file, {mode}, save={sl}, grid={case.get('grid')}] {what}"))
+
+    try:
+        probes.reset()
+        save_yaml = json.dumps(_save_list(sl))
+        steps = 2 if mode == "exposure2" else 1
+        times = [float(i + 1) for i in range(steps)]
+        if mode.startswith("exposure"):
+            head = (f"exposure:\n  readout: {{times: {times}}}\n  outputs:\n    output_folder: {json.dumps(parent)}\n"
+                    f"    save_data_to_file: {save_yaml}\n")
+            pipe = ("pipeline:\n  charge_generation:\n    - name: w\n      func: vp.probes.write\n      enabled: true\n"
+                    f"      arguments: {{buckets: [photon, charge, pixel, signal, image], salt: {float(seed)}}}\n")
+            labels = None
+        else:
+            vals = [1 + seed, 2 + seed, 3 + seed]
+            params = f"    - {{key: pipeline.photon_collection.enc.arguments.a, values: {vals}}}\n"
+            labels = {(v,): enc_expected(v) for v in vals}
+            names = ["a"]
+            if case.get("grid"):
+                na, nb = case["grid"]
+                va, vb = vals[:na], [1, 2, 3][:nb]
+                params = (f"    - {{key: pipeline.photon_collection.enc.arguments.a, values: {va}}}\n"
+                          f"    - {{key: pipeline.photon_collection.enc.arguments.b, values: {vb}}}\n")
+                labels = {(x, y): enc_expected(float(x) + 1000.0 * float(y)) for x in va for y in vb}
+                names = ["a", "b"]
+            head = (f"observation:\n  mode: product\n  with_dask: {'true' if mode == 'obs_dask' else 'false'}\n"
+                    f"  parameters:\n{params}  readout: {{times: {times}}}\n  outputs:\n"
+                    f"    output_folder: {json.dumps(parent)}\n    save_data_to_file: {save_yaml}\n")
+            pipe = ("pipeline:\n  photon_collection:\n    - name: enc\n      func: props.c19_outputs.enc_all\n"
+                    "      enabled: true\n      arguments: {a: 0.0, b: 0.0}\n")
+        cfg_file = os.path.join(tmp, "config.yaml")
+        with open(cfg_file, "w") as fh:
+            fh.write(head + _YAML_DETECTOR + pipe)
+        before = set(_listing(parent))
+        audit_start(parent)
+        try:
+            if mode == "obs_dask":
+                import dask
+
+                with dask.config.set(scheduler="synchronous"):
+                    df = pyxel.run(cfg_file)
+            else:
+                df = pyxel.run(cfg_file)
+        except Exception as e:  # noqa: BLE001
+            audit_stop()
+            bad("raised", f"raised {type(e).__name__}: {str(e)[:200]}")
+            df = None
+        events = audit_stop()
+        if df is not None:
+            new_dirs = [x for x in _listing(parent) if x not in before and x.endswith("/") and x.count("/") == 1]
+            if len(new_dirs) != 1:
+                bad("fresh-dir", f"{len(new_dirs)} new directories {new_dirs} for one started simulation")
+            d = os.path.join(parent, new_dirs[0]) if new_dirs else parent
+            existing = {os.path.join(parent, x) for x in before}
+            for ev, p, existed in events:
+                if p in existing:
+                    bad("overwrite", f"{ev} on {os.path.relpath(p, parent)} which existed before the start")
+                    break
+            rows = df.to_dict("records")
+            expected = {(): _final_buckets()} if labels is None else labels
+            if len(rows) != len(sl) * len(expected):
+                bad("report-count", f"the table lists {len(rows)} files for {len(sl)} (bucket, format) pairs x {len(expected)} run(s): "
+                    f"{[str(r['filename']) for r in rows]}")
+            for (b, f) in sl:
+                for label, exp in expected.items():
+                    got = [r for r in rows if os.path.basename(str(r["filename"])).startswith(f"detector_{b}")
+                           and str(r["filename"]).endswith("." + f)
+                           and (labels is None or all(float(r[n]) == float(v) for n, v in zip(names, label)))]
+                    if len(got) != 1:
+                        bad("report-count", f"{len(got)} rows for bucket {b} format {f} run {label}: "
+                            f"{[str(g['filename']) for g in got]}", fmt=f)
+                        continue
+                    full = os.path.join(d, str(got[0]["filename"]))
+                    if not os.path.isfile(full):
+                        bad("missing-file", f"listed file {got[0]['filename']} does not exist in the run's folder", fmt=f)
+                        continue
+                    nfiles += 1
+                    a = _read_back(full)
+                    e = exp[b]
+                    if a is None or a.shape != e.shape or not np.array_equal(a.astype("float64"), e.astype("float64")):
+                        bad("wrong-content", f"file {os.path.basename(full)} listed for run {label} bucket {b} holds "
+                            f"{None if a is None else a.tolist()} but that run's bucket is {e.tolist()}", fmt=f)
+            # the table written next to the files lists the same names
+            csvp = os.path.join(d, "output_filenames.csv")
+            if not os.path.isfile(csvp):
+                bad("missing-file", "output_filenames.csv was not written")
+            else:
+                import pandas as pd
+
+                listed = sorted(str(x) for x in pd.read_csv(csvp)["filename"])
+                if listed != sorted(str(r["filename"]) for r in rows):
+                    bad("report-count", f"output_filenames.csv lists {listed}, the returned table "
+                        f"{sorted(str(r['filename']) for r in rows)}")
+    finally:
+        audit_stop()
+        clock.remove()
+        shutil.rmtree(tmp, ignore_errors=True)
+    return {"viol": viol, "sig": cfgx.sig(["cli", sl, mode, case.get("grid")]), "nontrivial": True, "n": max(1, nfiles),
+            "outcome": {"unsupported": False, "files_read_back": nfiles}, "sets": {"unsupported": []}}
+
+
 def run_files_case(case):
     import pyxel
     from pyxel.observation import Observation, ParameterValues
@@ -571,6 +706,8 @@ def run_files_case(case):
         return run_direct_case(case)
     if case.get("default_list"):
         return run_default_list_case(case)
+    if case.get("cli"):
+        return run_cli_case(case)
     seed = int(os.environ.get("VERIF_SEED", "0") or 0) % 5
     sl, mode = case["save"], case["mode"]
     viol = []
@@ -688,7 +825,7 @@ def run_files_case(case):
                     bad("overwrite", f"{ev} on {os.path.relpath(p, parent)} which already existed")
                     break
             # (3) reported files: exist, attributed content, exactly one per (bucket, format, run)
-            if mode != "obs_dask":
+            if True:            # every mode (the parallel observation reports its files in /output too, computed by load())
                 rep_files = _reported(res)
                 for (b, f) in sl:
                     for label, exp in expected.items():
@@ -710,8 +847,8 @@ def run_files_case(case):
                             if a is None or a.shape != e.shape or not np.array_equal(a.astype("float64"), e.astype("float64")):
                                 bad("wrong-content", f"file {os.path.basename(full)} reported for run {label} bucket {b} holds "
                                                      f"{None if a is None else a.tolist()} but that run's bucket is {e.tolist()}", fmt=f)
-            else:
-                # dask: no /output node; files on disk must be one-to-one with (bucket, format, run)
+            if mode == "obs_dask":
+                # additionally: the files on disk must be one-to-one with (bucket, format, run)
                 for (b, f) in sl:
                     if f not in LOSSLESS:
                         continue
